@@ -63,6 +63,7 @@ const KNOWN_RULES: &[&str] = &[
     "std_net",
     "opt_map",
     "spawn_drop",
+    "iter_loop",
 ];
 
 pub fn apply(repo: &str, req: &ItemReq, f: &mut FnUnderEdit) -> Result<(), String> {
@@ -257,6 +258,13 @@ pub fn apply(repo: &str, req: &ItemReq, f: &mut FnUnderEdit) -> Result<(), Strin
         v.visit_block_mut(&mut f.block);
         let n = v.n;
         f.fire("error_cause", n);
+    }
+    // R32 `X.iter()/into_iter() [.map(c) | .filter(c)]* .collect()` -> explicit loop over model iterator / collector traits
+    if has("iter_loop") {
+        let mut v = IterLoop { n: 0, types: req.collect_types.clone() };
+        v.visit_block_mut(&mut f.block);
+        let n = v.n;
+        f.fire("iter_loop", n);
     }
     // R17 iterator-adaptor chains ending in collect() -> vx_havoc()
     if has("havoc_iter") {
@@ -853,6 +861,108 @@ impl VisitMut for HavocIter {
             }
         }
         visit_mut::visit_expr_mut(self, e);
+    }
+}
+
+// ---------------------------------------------------------------- R32
+/// `BASE.into_iter()|iter() (.map(|P| B) | .filter(|P| C))* .collect()` is what `FromIterator` does, written out:
+/// `{ let mut it = VxIntoIter::vx_into_iter(BASE) | VxIterRef::vx_iter(&BASE); let mut out = VxCollect::vx_new();
+///    loop { match it.next() { Some(x) => { [let x = {let P = x; B};]* [if {let P = &x; C} {]* VxCollect::vx_push(&mut out, x) [}]* }, None => break } } out }`.
+/// Closures must be literals with one parameter and no `return`/`?`. The traits are the unit's model of the collection types.
+struct IterLoop {
+    n: usize,
+    types: Vec<String>,
+}
+enum Adaptor {
+    Map(syn::ExprClosure),
+    Filter(syn::ExprClosure),
+}
+fn iter_chain(e: &syn::Expr) -> Option<(syn::Expr, bool, Vec<Adaptor>)> {
+    // returns (base, by_ref, adaptors in application order) for the receiver of `.collect()`
+    match e {
+        syn::Expr::MethodCall(m) => {
+            let name = m.method.to_string();
+            if (name == "iter" || name == "into_iter") && m.args.is_empty() {
+                return Some(((*m.receiver).clone(), name == "iter", vec![]));
+            }
+            if (name == "map" || name == "filter") && m.args.len() == 1 {
+                if let syn::Expr::Closure(c) = &m.args[0] {
+                    if c.inputs.len() != 1 || c.asyncness.is_some() {
+                        return None;
+                    }
+                    let mut hr = HasReturn(false);
+                    syn::visit::Visit::visit_expr(&mut hr, &c.body);
+                    if hr.0 {
+                        return None;
+                    }
+                    let (base, by_ref, mut ads) = iter_chain(&m.receiver)?;
+                    ads.push(if name == "map" { Adaptor::Map(c.clone()) } else { Adaptor::Filter(c.clone()) });
+                    return Some((base, by_ref, ads));
+                }
+            }
+            None
+        }
+        _ => None,
+    }
+}
+fn closure_pat(c: &syn::ExprClosure) -> proc_macro2::TokenStream {
+    match &c.inputs[0] {
+        syn::Pat::Type(t) => {
+            let (p, ty) = (&t.pat, &t.ty);
+            quote::quote!(#p: #ty)
+        }
+        p => quote::quote!(#p),
+    }
+}
+impl VisitMut for IterLoop {
+    fn visit_expr_mut(&mut self, e: &mut syn::Expr) {
+        visit_mut::visit_expr_mut(self, e);
+        if let syn::Expr::MethodCall(m) = e {
+            if m.method == "collect" && m.args.is_empty() {
+                if let Some((base, by_ref, ads)) = iter_chain(&m.receiver) {
+                    // innermost statement first
+                    let mut inner: syn::Expr = syn::parse_quote!({ VxCollect::vx_push(&mut __vx_out, __vx_x); });
+                    for a in ads.iter().rev() {
+                        inner = match a {
+                            Adaptor::Map(c) => {
+                                let pat = closure_pat(c);
+                                let body = &c.body;
+                                syn::parse_quote!({ let __vx_x = { let #pat = __vx_x; #body }; #inner })
+                            }
+                            Adaptor::Filter(c) => {
+                                let pat = closure_pat(c);
+                                let body = &c.body;
+                                syn::parse_quote!({ if { let #pat = &__vx_x; #body } #inner })
+                            }
+                        };
+                    }
+                    let start: syn::Expr = if by_ref {
+                        syn::parse_quote!(VxIterRef::vx_iter(&#base))
+                    } else {
+                        syn::parse_quote!(VxIntoIter::vx_into_iter(#base))
+                    };
+                    let out_ty = m.turbofish.as_ref().and_then(|t| t.args.first().cloned());
+                    let asc = self.types.get(self.n).and_then(|t| parse_type(t).ok());
+                    let decl: syn::Stmt = match (asc, out_ty) {
+                        (Some(t), _) => syn::parse_quote!(let mut __vx_out: #t = VxCollect::vx_new();),
+                        (None, Some(syn::GenericArgument::Type(t))) => syn::parse_quote!(let mut __vx_out: #t = VxCollect::vx_new();),
+                        _ => syn::parse_quote!(let mut __vx_out = VxCollect::vx_new();),
+                    };
+                    *e = syn::parse_quote!({
+                        let mut __vx_it = #start;
+                        #decl
+                        loop {
+                            match __vx_it.next() {
+                                Some(__vx_x) => #inner,
+                                None => { break; }
+                            }
+                        }
+                        __vx_out
+                    });
+                    self.n += 1;
+                }
+            }
+        }
     }
 }
 
